@@ -755,6 +755,70 @@ Proof.
     destruct (Hex _ 0 (Z.le_refl 0) E) as [k Hk]. exists k. lia.
 Qed.
 
+(* the statement of accepts_legal with [legal] unfolded (used verbatim by C20_Properties.v) *)
+Lemma accepts_legal_unfolded fs path :
+  base_path fs <> [] ->
+  slen path + base_path_len fs < PATH_MAX - 2 ->
+  (forall k, 0 <= depth (firstn k (components path))) ->
+  pathcat fs path = PcOk (PStr (base_path fs ++ path)).
+Proof. intros Hb Hl Hd. apply accepts_legal_lemma; [exact Hb | split; [exact Hl | exact Hd]]. Qed.
+
+(* ================================================================== *)
+(** * M. the iterator by itself; buffer bounds *)
+
+(* `for (auto& name : Path(p)) out.push_back(name)` *)
+Fixpoint iter_collect (fuel : nat) (it : iter) : option (list str) :=
+  if iter_at_end it then Some [] else
+  match fuel with
+  | O => None
+  | S f => option_map (cons (it_view it)) (iter_collect f (iter_next it))
+  end.
+
+Lemma iter_collect_spec fuel : forall p, (length p < fuel)%nat ->
+  iter_collect fuel (iter_set p) = Some (components p).
+Proof.
+  induction fuel as [|f IH]; intros p Hf; [lia|].
+  pose proof (iter_set_components p) as H. cbn zeta in H. cbn [iter_collect].
+  destruct (iter_at_end (iter_set p)).
+  - rewrite H. reflexivity.
+  - destruct H as [-> Hl]. unfold iter_next. rewrite IH by lia. reflexivity.
+Qed.
+
+(* iterating a path yields its non-empty, slash-free pieces in order — repeated, leading and
+   trailing slashes produce nothing *)
+Lemma iterator_visits_components_lemma p :
+  iter_collect (S (length p)) (iter_begin p) = Some (components p) /\
+  Forall (fun c => c <> [] /\ Forall (fun x => x <> SLASH) c) (components p) /\
+  (forall a b, components (a ++ SLASH :: b) = components a ++ components b) /\
+  (forall n, n <> [] -> Forall (fun x => x <> SLASH) n -> components n = [n]).
+Proof.
+  split; [apply iter_collect_spec; lia|]. split.
+  - apply Forall_forall. intros c Hc. split; [eapply components_nonempty; eauto|].
+    apply (components_no_slash p c Hc).
+  - split; [exact components_app_slash|].
+    intros n Hne Hn. rewrite <- (app_nil_r n) at 1. rewrite components_name; auto.
+Qed.
+
+(* init never overruns base_path[PATH_MAX]; PathCat never overruns buf[PATH_MAX] (incl. the NUL) *)
+Lemma buffers_fit_lemma st base fs : slen base < 4294967296 ->
+  subfs_init st base = InitOk fs ->
+  base_path_len fs <= PATH_MAX - 1 /\
+  forall path fwd, base_path fs <> [] -> pathcat fs path = PcOk (PStr fwd) -> slen fwd + 1 <= PATH_MAX - 2.
+Proof.
+  intros Hlen Hinit. split.
+  - destruct base as [|c0 b0] eqn:Eb.
+    + cbn in Hinit. injection Hinit as <-. cbn. unfold PATH_MAX. lia.
+    + rewrite <- Eb in *. assert (Hne : base <> []) by congruence.
+      unfold base_path_len. destruct (init_spec _ _ _ Hne Hlen Hinit) as (_ & Hle & [[-> _] | ->]).
+      * lia.
+      * unfold slen in *. rewrite app_length, Nat2Z.inj_add. cbn [length]. lia.
+  - intros path fwd Hb Hpc. rewrite pathcat_spec in Hpc by assumption. unfold fwd_of in Hpc.
+    destruct (legal_b fs path) eqn:E; [|discriminate]. injection Hpc as <-.
+    apply legal_b_iff in E. destruct E as [Hl _]. unfold base_path_len, slen in *.
+    rewrite app_length, Nat2Z.inj_add. lia.
+Qed.
+
+
 (* ================================================================== *)
 (** * L. examples (concrete states meeting the hypotheses; the unit-test paths; dot-names) *)
 From Coq Require Import String Ascii.
@@ -826,11 +890,3 @@ Example init_failures :
   (exists fs, subfs_init StatDir (repeat 97 4094) = InitOk fs /\ base_path_len fs = 4095 /\
               pathcat fs [] = PcOk PNull).
 Proof. vm_compute. repeat split. eexists. repeat split. Qed.
-
-(* the statement of accepts_legal with [legal] unfolded (used verbatim by C20_Properties.v) *)
-Lemma accepts_legal_unfolded fs path :
-  base_path fs <> [] ->
-  slen path + base_path_len fs < PATH_MAX - 2 ->
-  (forall k, 0 <= depth (firstn k (components path))) ->
-  pathcat fs path = PcOk (PStr (base_path fs ++ path)).
-Proof. intros Hb Hl Hd. apply accepts_legal_lemma; [exact Hb | split; [exact Hl | exact Hd]]. Qed.
